@@ -21,6 +21,7 @@ import (
 	"github.com/criyle/go-sandbox/pkg/seccomp/libseccomp"
 	"github.com/criyle/go-sandbox/ptracer"
 	"github.com/criyle/go-sandbox/runner"
+	"github.com/criyle/go-sandbox/runner/unshare"
 	"golang.org/x/sys/unix"
 	"pgregory.net/rapid"
 
@@ -47,6 +48,7 @@ type c17Outcome struct {
 	Status   string
 	Exit     int
 	Slot4    string // dev:ino seen by the program at descriptor 4
+	FDNums   string // the descriptor numbers the program found open
 	Output   string
 	Records  []string // handler records (ptrace)
 	Returns  string   // return values of the traced calls as the program saw them
@@ -59,7 +61,7 @@ func c17GenCase(rt *rapid.T) c17Case {
 	var c c17Case
 	n := rapid.IntRange(2, 16).Draw(rt, "n")
 	for i := 0; i < n; i++ {
-		d := c17Desc{Kind: rapid.SampledFrom([]string{"ptrace", "ptrace", "ptrace", "unshare", "container", "container", "ping", "open"}).Draw(rt, "kind"),
+		d := c17Desc{Kind: rapid.SampledFrom([]string{"ptrace", "ptrace", "ptrace", "unshare", "unshare", "container", "container", "ping", "open", "build", "badexec"}).Draw(rt, "kind"),
 			Env: rapid.IntRange(0, 2).Draw(rt, "env"), Code: 10 + i, NStat: rapid.SampledFrom([]int{3, 20, 150}).Draw(rt, "nstat"),
 			Cancel: rapid.IntRange(0, 5).Draw(rt, "cancel") == 0, SleepMs: rapid.SampledFrom([]int{0, 0, 1, 5}).Draw(rt, "sleep"), BanOdd: rapid.Bool().Draw(rt, "banodd")}
 		c.Descs = append(c.Descs, d)
@@ -149,6 +151,41 @@ func c17RunOne(w *c17World, i int, d c17Desc, start <-chan struct{}, stagger tim
 		}
 		out.Status = strings.Join(parts, ",")
 		return out
+	case "build":
+		// a new environment comes into being while other runs fork
+		env, root, err := buildContainer(nil)
+		if err != nil {
+			out.Err = err.Error()
+			return out
+		}
+		out.Status = "built"
+		if e := env.Ping(); e != nil {
+			out.Status = "built, ping-error: " + e.Error()
+		}
+		env.Destroy()
+		os.RemoveAll(root)
+		return out
+	case "badexec":
+		// launches that fail in execve (the error paths of the launcher run next to other runs' descriptor set-up)
+		filter, _ := buildFilter(nil, nil, libseccomp.ActionAllow)
+		dn := devNullFile()
+		for k := 0; k < d.NStat; k++ {
+			r := &unshare.Runner{Args: []string{fmt.Sprintf("/nonexistent-%d", i)}, Env: []string{"VP=1"}, Files: []uintptr{dn.Fd(), dn.Fd(), dn.Fd()},
+				Seccomp: filter, Limit: runner.Limit{TimeLimit: 5 * time.Second, MemoryLimit: 1 << 30}}
+			res := r.Run(context.Background())
+			st := res.Status.String()
+			if strings.Contains(res.Error, "no such file") {
+				st += ": no such file"
+			} else {
+				st += ": " + res.Error
+			}
+			if out.Status != "" && out.Status != st {
+				out.Status += " | " + st
+				break
+			}
+			out.Status = st
+		}
+		return out
 	}
 	// a program run
 	var s probe.Script
@@ -231,6 +268,7 @@ func c17RunOne(w *c17World, i int, d c17Desc, start <-chan struct{}, stagger tim
 		out.Exit = 0 // SIGKILL number differs between runners' reporting paths; not part of the comparison
 	}
 	for _, f := range tr.Report.FDs {
+		out.FDNums += fmt.Sprintf("%d,", f.N)
 		id := fmt.Sprintf("%d:%d", f.Dev, f.Ino)
 		if f.N == 4 {
 			out.Slot4 = id
@@ -270,7 +308,7 @@ func c17RunOne(w *c17World, i int, d c17Desc, start <-chan struct{}, stagger tim
 		out.Foreign += fmt.Sprintf("output %q is not this run's text; ", out.Output)
 	}
 	if d.Cancel {
-		out.Output, out.Returns, out.Records, out.Slot4 = "", "", nil, "" // how far a cancelled program got is timing
+		out.Output, out.Returns, out.Records, out.Slot4, out.FDNums = "", "", nil, "", "" // how far a cancelled program got is timing
 	}
 	return out
 }
@@ -311,8 +349,50 @@ func c17Run(c c17Case, w *c17World, rec *vh.Recorder) error {
 			con[i] = c17RunOne(w, i, d, start, time.Duration(c.Stagger[i])*time.Microsecond)
 		}(i, d)
 	}
+	// canaries: descriptors of the embedding application, opened and closed next to the runs, must stay its own
+	stop := make(chan struct{})
+	canary := make(chan string, 8)
+	var cwg sync.WaitGroup
+	for k := 0; k < 4; k++ {
+		cwg.Add(1)
+		go func() {
+			defer cwg.Done()
+			for n := 0; ; n++ {
+				select {
+				case <-stop:
+					return
+				default:
+				}
+				r, wr, err := os.Pipe()
+				if err != nil {
+					continue
+				}
+				var a, b unix.Stat_t
+				rc, _ := r.SyscallConn()
+				var e1, e2 error
+				rc.Control(func(fd uintptr) { e1 = unix.Fstat(int(fd), &a) })
+				time.Sleep(time.Duration(20+n%7*30) * time.Microsecond)
+				rc.Control(func(fd uintptr) { e2 = unix.Fstat(int(fd), &b) })
+				ec1, ec2 := r.Close(), wr.Close()
+				if e1 != nil || e2 != nil || a.Ino != b.Ino || ec1 != nil || ec2 != nil {
+					select {
+					case canary <- fmt.Sprintf("a pipe of the application changed under it: fstat %v/%v inode %d->%d close %v/%v", e1, e2, a.Ino, b.Ino, ec1, ec2):
+					default:
+					}
+					return
+				}
+			}
+		}()
+	}
 	close(start)
 	wg.Wait()
+	close(stop)
+	cwg.Wait()
+	select {
+	case msg := <-canary:
+		return vh.Violf("C17:application-descriptor-disturbed", "%s; workload %+v", msg, c.Descs)
+	default:
+	}
 	kinds := map[string]bool{}
 	for i, d := range c.Descs {
 		kinds[d.Kind] = true
